@@ -11,6 +11,8 @@ from engine.model import src, stmt_key, dotted, walk_no_nested
 from engine.util import own_nodes, calls_with_nodes, where
 
 RULES = {
+    "R-19.13": "a frozen tree rejects every mutation, also one that would change nothing: every BTree / BTreeDict / BTreeSet method that (transitively) calls a tree-changing method reaches _check_mutable_and_park() - directly or through that call - on every path to a normal return; no early return (a miss, an empty tree) comes first",
+    "R-19.12": "the cursor descends to a LEAF: every step `self.current_node = self.current_node.children[...]` sits in a `while` loop (one `if` would stop one level down, which only shows on trees of three or more levels)",
     "R-19.11": "balance() merges only when no steal happened: the boolean result of every try_left_steal / try_right_steal call decides control flow (tested directly, or bound to a name that is tested) - a steal whose result is discarded is followed by a merge that overfills the node; and __copy__ of a tree always builds a new copy-on-write clone (`self.__class__(original=self)`), it never hands back the tree itself",
     "R-19.10": "keys and elements are arbitrary values (0, the empty name, an empty tuple are keys): in dns/btree.py a local or parameter whose 'absent' marker is None (initialised or defaulted to None) is never tested by truth value",
     "R-19.9": "absolute positioning leaves no residue of the previous position: seek(), seek_first() and seek_last() each assign every cursor state field that any of them assigns (node, index, recurse, increasing, parents, parked, parking key); and a cursor that lives across a `yield` (the consumer may mutate the tree between two steps) is registered with the tree by `with`, so mutations park it",
@@ -416,6 +418,60 @@ def run(model, rep, tier):
         rep.check(bool(rets11) and len(good11) == len(rets11), "R-19.11", cq, where(fc11, next((r for r in rets11 if r not in good11), fc11.node)), "__copy__ always returns a fresh clone",
                   f"`{src(next((r for r in rets11 if r not in good11), fc11.node))[:40]}`: copy.copy() of a tree can return the tree itself - two 'copies' are one object (not isolated), and a copy of a frozen tree refuses every mutation",
                   stmt="copy-is-a-clone")
+    # ---------------------------------------------------------------- R-19.12
+    n_desc = 0
+    for f12 in sorted(model.all_functions(), key=lambda g: g.qualname):
+        if f12.module.name != "dns.btree":
+            continue
+        parents12 = {id(ch): par for par in ast.walk(f12.node) for ch in ast.iter_child_nodes(par)}
+        for st in ast.walk(f12.node):
+            if not (isinstance(st, ast.Assign) and len(st.targets) == 1 and isinstance(st.value, ast.Subscript) and isinstance(st.value.value, ast.Attribute) and st.value.value.attr == "children"):
+                continue
+            tgt = src(st.targets[0])
+            if src(st.value.value.value) != tgt or not tgt.endswith("current_node"):
+                continue
+            n_desc += 1
+            anc, in_while = parents12.get(id(st)), False
+            while anc is not None and anc is not f12.node:
+                if isinstance(anc, ast.While):
+                    in_while = True
+                    break
+                anc = parents12.get(id(anc))
+            rep.check(in_while, "R-19.12", f12.qualname, where(f12, st), "the descent step is repeated by a `while` loop",
+                      f"`{src(st)[:70]}` is not inside a `while`: the cursor goes down ONE level and treats that node as the leaf - on a tree of height >= 3 next()/prev() then return separator keys and skip whole subtrees",
+                      stmt="descent-loop " + tgt)
+    rep.floor("R-19.12", n_desc, 3)
+    # ---------------------------------------------------------------- R-19.13
+    closure13 = {f.node.name for f in tree_mutators}
+    fam13 = [model.cls(q) for q in ("dns.btree.BTree", "dns.btree.BTreeDict", "dns.btree.BTreeSet")]
+    changed13 = True
+    while changed13:
+        changed13 = False
+        for c13 in fam13:
+            for nm13, f13 in c13.methods.items():
+                if nm13 in closure13 or nm13 == "__init__":
+                    continue
+                if any(isinstance(c, ast.Call) and isinstance(c.func, ast.Attribute) and src(c.func.value) == "self" and c.func.attr in closure13 for c in ast.walk(f13.node)):
+                    closure13.add(nm13)
+                    changed13 = True
+    n13 = 0
+    for c13 in fam13:
+        for nm13, f13 in sorted(c13.methods.items()):
+            if nm13 not in closure13:
+                continue
+            n13 += 1
+            cfg13 = CFG(f13.node, implicit_exc=False)
+            gate13 = [n.id for (n, c) in calls_with_nodes(cfg13) if isinstance(c.func, ast.Attribute) and src(c.func.value) == "self" and (c.func.attr == "_check_mutable_and_park" or (c.func.attr in closure13 and c.func.attr != nm13))]
+            okk13 = bool(gate13) and cfg13.postdominated_by_set(cfg13.entry.id, gate13)
+            rep.check(okk13, "R-19.13", f13.qualname, where(f13, f13.node), "every normal return passes the freeze check",
+                      "a path returns normally without passing _check_mutable_and_park() (or a method that does): on a frozen tree that call succeeds silently instead of raising Immutable",
+                      stmt="all-paths-check")
+    rep.floor("R-19.13", n13, 8)
+    cx13 = model.func("dns.btree.Cursor.__exit__")
+    rets13 = [r for r in ast.walk(cx13.node) if isinstance(r, ast.Return) and r.value is not None]
+    sup13 = [r for r in rets13 if not (isinstance(r.value, ast.Constant) and r.value.value in (False, None))]
+    rep.check(not sup13, "R-19.13", cx13.qualname, where(cx13, sup13[0] if sup13 else cx13.node), "leaving `with cursor` never suppresses an exception",
+              f"`{src(sup13[0])[:40]}`: Cursor.__exit__ can return a true value, which suppresses whatever was raised inside `with tree.cursor()` - the Immutable of a refused mutation included" if sup13 else "", stmt="exit-propagates")
     # ---------------------------------------------------------------- R-19.10
     from engine.util import truthiness_uses
     n_sent = 0
@@ -573,6 +629,18 @@ def _root_owned(cfg, at):
 
 
 WITNESSES = [
+    {"id": "c19-cursor-exit-swallows", "rule": "R-19.13", "file": "dns/btree.py", "expect": "fires",
+     "old": "        self.btree.deregister_cursor(self)\n        return False", "new": "        self.btree.deregister_cursor(self)\n        return True"},
+    {"id": "c19-seek-descends-one-level", "rule": "R-19.12", "file": "dns/btree.py", "expect": "fires",
+     "old": "        while not self.current_node.is_leaf:\n            i, equal = self.current_node.search_in_node(key)", "new": "        if not self.current_node.is_leaf:\n            i, equal = self.current_node.search_in_node(key)"},
+    {"id": "c19-twin-seek-loop-while-true", "rule": "R-19.12", "file": "dns/btree.py", "expect": "silent",
+     "old": "        while not self.current_node.is_leaf:\n            i, equal = self.current_node.search_in_node(key)", "new": "        while True:\n            if self.current_node.is_leaf:\n                break\n            i, equal = self.current_node.search_in_node(key)"},
+    {"id": "c19-delete-key-miss-shortcut", "rule": "R-19.13", "file": "dns/btree.py", "expect": "fires",
+     "old": "        return self._delete(key, None)", "new": "        if self.root.get(key) is None:\n            return None\n        return self._delete(key, None)"},
+    {"id": "c19-discard-empty-shortcut", "rule": "R-19.13", "file": "dns/btree.py", "expect": "fires",
+     "old": "    def discard(self, value: KT) -> None:\n        self.delete_key(value)", "new": "    def discard(self, value: KT) -> None:\n        if len(self) == 0:\n            return\n        self.delete_key(value)"},
+    {"id": "c19-twin-delete-key-check-first", "rule": "R-19.13", "file": "dns/btree.py", "expect": "silent",
+     "old": "        return self._delete(key, None)", "new": "        self._check_mutable_and_park()\n        if self.root.get(key) is None:\n            return None\n        return self._delete(key, None)"},
     {"id": "c19-balance-ignores-right-steal", "rule": "R-19.11", "file": "dns/btree.py", "expect": "fires",
      "old": "        if self.try_left_steal(parent, index):\n            return\n        if self.try_right_steal(parent, index):\n            return", "new": "        stolen = self.try_left_steal(parent, index)\n        if not stolen:\n            self.try_right_steal(parent, index)\n        if stolen:\n            return"},
     {"id": "c19-copy-returns-self-when-frozen", "rule": "R-19.11", "file": "dns/btree.py", "expect": "fires",
